@@ -7,14 +7,11 @@ import UnytModel.C14Check
 namespace Unyt.C14
 
 /-- every listed name of chunk 2 (four slices of 64 rows) is read by the string route and by the
-    three attribute routes as the independent reference reads it (guard: word-prefixed °C) -/
+    three attribute routes as the independent reference reads it -/
 theorem names_slice_02_0 : namesSliceOk 2 0 = true := by decide +kernel
 theorem names_slice_02_1 : namesSliceOk 2 1 = true := by decide +kernel
 theorem names_slice_02_2 : namesSliceOk 2 2 = true := by decide +kernel
 theorem names_slice_02_3 : namesSliceOk 2 3 = true := by decide +kernel
-
-/-- every excluded name of chunk 2 really is unusable as a unit string -/
-theorem exclusions_chunk_02 : exclusionsChunkOk 2 = true := by decide +kernel
 
 /-- prefix spellings 3·2 … 3·2+2 (symbols, then word forms) are rejected on every
     non-prefixable spelling (three slices of 110 spelling rows) -/
